@@ -13,6 +13,10 @@ EVENTS = [
     (1, 5000, 'host2,service_running,uniq.web'),
     (2, 130, 'host1,pending,'),
     (2, 140, 'host1,scheduled,host3:evicted'),
+    # thorough tier only
+    (0, 160, 'host1,deleted,'),
+    (1, 6000, 'host2,service_exited,uniq.web.0.0'),
+    (2, 4100, 'host3,configured,uniq'),
 ]
 
 
@@ -76,6 +80,20 @@ def subharnesses(tier):
                                 'error': 'zkerror'}[crash]),
                     {'kind': 'trace', 'batch': bs, 'sched': sched,
                      'crash': crash}))
+    if tier == 'thorough':
+        # nine events, larger batches, every scheduled / finished combination
+        for bs in (1, 2, 3, 5, 7):
+            for sched in range(8):
+                for fin in (0, 7, sched ^ 7):
+                    for crash in (False, True):
+                        subs.append(('trace9-batch%d-sched%d-fin%d-%s' % (
+                            bs, sched, fin, 'crash' if crash else 'run'),
+                            {'kind': 'trace', 'batch': bs, 'sched': sched,
+                             'fin': fin, 'crash': crash, 'nev': 9}))
+        for bs in (1, 2, 3):
+            subs.append(('finished-batch%d-two_passes-crash' % bs,
+                         {'kind': 'finished', 'batch': bs, 'crash': True,
+                          'passes': 2}))
     # instances that have a record under /finished (a stale terminal event
     # from a node that lost the placement) and are still scheduled
     for bs in (1, 2, 4):
@@ -168,7 +186,7 @@ def _trace(S, spec):
             if i in scheduled:
                 S.reach('scheduled_and_finished')
     pre = {}
-    for (i, ts, rest) in EVENTS:
+    for (i, ts, rest) in EVENTS[:spec.get('nev', 6)]:
         name = '%s,%s,%s' % (INSTS[i], ts, rest)
         path = '/trace/%s/%s' % (_shard(INSTS[i]), name)
         tree.seed(path, b'')
